@@ -123,9 +123,21 @@ def bounded(ctx):
             recs.append(s[:mid] + "T" * (a_ + k_ + 2) + gen.rc(site) + s[mid:])
         for s in recs:
             ref = be.observe_entity(cls(CircularRecord(Seq(s.upper()), id="r")))
-            for mode in ("lower", "mixed", "mixed"):
+            # regional spellings: one occurrence of the recognition site (either strand, also across the origin) in
+            # lower case and the rest upper, and the converse -- a spelling-sensitive shortcut sees some sites only
+            regional = []
+            up_ = s.upper()
+            n_ = len(up_)
+            for w_ in {site.upper(), gen.rc(site).upper()}:
+                for p_ in range(n_):
+                    if (up_ + up_)[p_:p_ + len(w_)] == w_:
+                        idx = {(p_ + q_) % n_ for q_ in range(len(w_))}
+                        regional.append("".join(c.lower() if i in idx else c for i, c in enumerate(up_)))
+                        regional.append("".join(c if i in idx else c.lower() for i, c in enumerate(up_)))
+            for mode in ["lower", "mixed", "mixed"] + regional[:8 if ctx.tier == "quick" else 40]:
                 evals += 1
-                t = recase(s, mode, rng)
+                t = recase(s, mode, rng) if mode in ("lower", "mixed") else mode
+                mode = mode if mode in ("lower", "mixed") else "regional"
                 obs = be.observe_entity(cls(CircularRecord(Seq(t), id="r")))
                 if ref["valid"] is True:
                     distinct.add((cls.__name__, mode))
@@ -173,7 +185,8 @@ def bounded(ctx):
     for v in viol:
         uniq.setdefault(v["name"], v)
     return dict(evaluations=evals, distinct_nontrivial=len(distinct),
-                rule="(1) every concrete kit class on seeded instances of its structure spelled lower / per-letter random, compared with "
+                rule="(1) every concrete kit class on seeded instances of its structure (and variants with a further site) spelled lower / "
+                     "per-letter random / regionally (one recognition-site occurrence lower and the rest upper, and the converse), compared with "
                      "the upper-case spelling (verdict, overhangs, target, placeholder up to case); (2) a BsaI vector + 2 modules in 4 "
                      "scenarios (complete, invalid vector, missing module, duplicate) under per-record assignments of {upper, lower, "
                      "mixed}, compared with the all-upper-case run (same error class and stalled overhang up to case, or same product "
